@@ -99,9 +99,21 @@ func (c *Condition) Operator() Operator { return c.operator }
 // Value returns the value being compared against
 func (c *Condition) Value() string { return c.value }
 
+// number values with decimal exponents outside of this range (e.g. 1e300000000) are not valid
+const maxNumberValueExponent = 1000
+
 // ValueAsNumber returns the value as a number if possible, or an error if not
 func (c *Condition) ValueAsNumber() (decimal.Decimal, error) {
-	return decimal.NewFromString(c.value)
+	d, err := decimal.NewFromString(c.value)
+	if err != nil {
+		return decimal.Zero, err
+	}
+
+	// comparing decimals rescales them, which costs time and memory proportional to 10^|exponent difference|
+	if d.Exponent() < -maxNumberValueExponent || d.Exponent() > maxNumberValueExponent {
+		return decimal.Zero, fmt.Errorf("number value out of range")
+	}
+	return d, nil
 }
 
 // ValueAsDate returns the value as a date if possible, or an error if not
